@@ -4,6 +4,8 @@ import (
 	"bytes"
 	"encoding/json"
 	"fmt"
+	"os"
+	"path/filepath"
 	"strings"
 
 	mxj "github.com/clbanning/mxj/v2"
@@ -141,6 +143,29 @@ func c20Pair(c *Ctx, k c20Case, choices []int) (nontrivial bool) {
 			} else {
 				core = rBytes(m.Xml())
 			}
+		case "j2x.JsonReaderToXml(stream)", "j2x.JsonReaderToXmlWriter(stream)":
+			// two documents on one reader (k.Pairs): the reader forms consume one document per call, like the core reader
+			stream := strings.Join(k.Pairs, " ")
+			r1 := oneRead{strings.NewReader(stream)}
+			r2 := oneRead{strings.NewReader(stream)}
+			var ws, cs []string
+			for i := 0; i <= len(k.Pairs); i++ {
+				if k.Fn == "j2x.JsonReaderToXml(stream)" {
+					_, x, e := j2x.JsonReaderToXml(r1)
+					ws = append(ws, fmt.Sprintf("%s|err=%v", x, e != nil))
+				} else {
+					var b bytes.Buffer
+					e := j2x.JsonReaderToXmlWriter(r1, &b)
+					ws = append(ws, rBytes(b.Bytes(), e))
+				}
+				m, e2 := mxj.NewMapJsonReader(r2)
+				if e2 != nil {
+					cs = append(cs, rBytes(nil, e2))
+				} else {
+					cs = append(cs, rBytes(m.Xml()))
+				}
+			}
+			w, core = strings.Join(ws, " ; "), strings.Join(cs, " ; ")
 		case "j2x.JsonPathsForKey":
 			w = rStrs(j2x.JsonPathsForKey(jb, k.Key))
 			m, e := jsonMap()
@@ -452,6 +477,65 @@ func c20Pair(c *Ctx, k c20Case, choices []int) (nontrivial bool) {
 			} else {
 				core = fmt.Sprintf("%d|err=%v", segs(m.PathForKeyShortest(k.Key)), false)
 			}
+		case "x2jw.BytePathForTagShortest":
+			p, e := x2jw.BytePathForTagShortest(xb, k.Key)
+			w = fmt.Sprintf("%d|err=%v", segs(p), e != nil)
+			m, e2 := xmlMap()
+			if e2 != nil {
+				core = fmt.Sprintf("%d|err=%v", 0, true)
+			} else {
+				core = fmt.Sprintf("%d|err=%v", segs(m.PathForKeyShortest(k.Key)), false)
+			}
+		case "x2jw.ValuesAtTagPath":
+			// the document form of ValuesAtKeyPath: must equal the walker on the decoded document
+			v, e := x2jw.ValuesAtTagPath(k.Xml, k.Path, k.Flag)
+			w = rSet(v, e)
+			m, e2 := xmlMap()
+			if e2 != nil {
+				core = rSet(nil, e2)
+			} else {
+				core = rSet(x2jw.ValuesAtKeyPath(map[string]interface{}(m), k.Path, k.Flag), nil)
+			}
+		case "x2jw.XmlBufferToMap":
+			m1, e1 := x2jw.XmlBufferToMap(bytes.NewBufferString(k.Xml), k.Flag)
+			if m1 == nil {
+				m1 = map[string]interface{}{}
+			}
+			w = rOK(m1, e1)
+			m, e2 := mxj.NewMapXmlReader(bytes.NewBufferString(k.Xml), k.Flag)
+			if m == nil {
+				m = mxj.Map{}
+			}
+			core = rOK(map[string]interface{}(m), e2)
+		case "x2jw.XmlBufferToJson":
+			j1, e1 := x2jw.XmlBufferToJson(bytes.NewBufferString(k.Xml), k.Flag)
+			w = fmt.Sprintf("%s|err=%v", j1, e1 != nil)
+			m, e2 := mxj.NewMapXmlReader(bytes.NewBufferString(k.Xml), k.Flag)
+			if e2 != nil {
+				core = fmt.Sprintf("%s|err=%v", "", true)
+			} else {
+				j, e3 := m.Json() // the buffer form is documented as decode + Map.Json (default encoding)
+				core = fmt.Sprintf("%s|err=%v", j, e3 != nil)
+			}
+		case "x2jw.XmlMsgsFromFile", "x2jw.XmlMsgsFromFileAsJson":
+			// the file forms are the reader forms on the file's content (k.Pairs holds the documents of k.Xml)
+			fn := filepath.Join(c16Dir(), fmt.Sprintf("c20-%d-%d.xml", os.Getpid(), c.Shard))
+			if err := os.WriteFile(fn, []byte(k.Xml), 0o644); err != nil {
+				c.Broken("C20: %v", err)
+				return
+			}
+			defer os.Remove(fn)
+			var got, want []string
+			var e, e2 error
+			if k.Fn == "x2jw.XmlMsgsFromFile" {
+				e = x2jw.XmlMsgsFromFile(fn, func(m map[string]interface{}) bool { got = append(got, dump(m)); return true }, func(error) bool { return false }, k.Flag)
+				e2 = x2jw.XmlMsgsFromReader(oneRead{strings.NewReader(k.Xml)}, func(m map[string]interface{}) bool { want = append(want, dump(m)); return true }, func(error) bool { return false }, k.Flag)
+			} else {
+				e = x2jw.XmlMsgsFromFileAsJson(fn, func(js string) bool { got = append(got, js); return true }, func(error) bool { return false }, k.Flag)
+				e2 = x2jw.XmlMsgsFromReaderAsJson(oneRead{strings.NewReader(k.Xml)}, func(js string) bool { want = append(want, js); return true }, func(error) bool { return false }, k.Flag)
+			}
+			w = fmt.Sprintf("%q|err=%v", got, e != nil)
+			core = fmt.Sprintf("%q|err=%v", want, e2 != nil)
 		case "x2jw.XmlMsgsFromReader", "x2jw.XmlMsgsFromReaderAsJson":
 			// k.Pairs holds the documents of the stream k.Xml
 			var got []string
@@ -642,7 +726,7 @@ func c20Walkers(c *Ctx, m map[string]interface{}, fn, key, path string, flag boo
 
 func c20Run(c *Ctx) {
 	mustBeDefault(c)
-	c.S.Rule = "part 1 (wrappers = documented composition of core calls): every exported function of j2x (17), x2j (17) and the conversion/reader functions of x2j-wrapper (16) x documents (XML: all element trees with <= 3 elements with <= 1 decoration, plus malformed inputs; JSON: Map templates with <= 4 nodes incl. special characters, plus malformed inputs) x keys {a,b,k,z,*} / paths of <= 2 steps / sub-key sets / key pairs / flags (safe encoding, recast) - wrapper result and error-ness must equal the composition executed on the same build in the same option state. part 2 (x2j-wrapper's own walkers): every Map template with <= N nodes over keys {a,k,-x} x keys / wildcard paths of <= 3 steps x getAttrs: PathsForKey = Map.PathsForKey as sets, PathForKeyShortest a member of equal length, ValuesFromKeyPath = reference walk with attribute entries excluded at wildcard steps unless requested (= Map.ValuesForPath when requested), ValuesAtKeyPath = the parent-level values iff one has the key. plus the sibling family {top:[M1,M2]} (Mi every map template with <= 4 nodes over {a,k}). Byte results of wrappers and compositions are retained and re-checked after later calls. Ascending/descending map order; E-choice bound 1 on the walkers for small Maps. non-trivial = non-empty result."
+	c.S.Rule = "part 1 (wrappers = documented composition of core calls): every exported function of j2x (17), x2j (17) and the conversion/reader/buffer/file functions of x2j-wrapper (22) x documents (XML: all element trees with <= 3 elements with <= 1 decoration, plus malformed inputs; JSON: Map templates with <= 4 nodes incl. special characters, plus malformed inputs) x keys {a,b,k,z,*} / paths of <= 2 steps / sub-key sets / key pairs / flags (safe encoding, recast) - wrapper result and error-ness must equal the composition executed on the same build in the same option state. part 2 (x2j-wrapper's own walkers): every Map template with <= N nodes over keys {a,k,-x} x keys / wildcard paths of <= 3 steps x getAttrs: PathsForKey = Map.PathsForKey as sets, PathForKeyShortest a member of equal length, ValuesFromKeyPath = reference walk with attribute entries excluded at wildcard steps unless requested (= Map.ValuesForPath when requested), ValuesAtKeyPath = the parent-level values iff one has the key. plus the sibling family {top:[M1,M2]} (Mi every map template with <= 4 nodes over {a,k}). Byte results of wrappers and compositions are retained and re-checked after later calls. Ascending/descending map order; E-choice bound 1 on the walkers for small Maps. non-trivial = non-empty result."
 	c.S.Assumptions = []string{"x2j-wrapper ToJson/ToJsonIndent marshal with encoding/json directly (safe encoding), as their source documents", "MapValue/DocValue/ValuesForKey of x2j-wrapper have no core counterpart with equal semantics and are covered by C15 (totality) only"}
 	// ---- documents
 	var xmls []string
@@ -693,12 +777,12 @@ func c20Run(c *Ctx) {
 			run(c20Case{Fn: fn, Xml: x})
 		}
 		for _, flag := range []bool{false, true} {
-			for _, fn := range []string{"x2j.XmlToJson", "x2j.XmlToJsonWriter", "x2j.XmlReaderToJson", "x2j.XmlReaderToJsonWriter", "x2jw.DocToMap", "x2jw.ByteDocToMap", "x2jw.DocToJson", "x2jw.ByteDocToJson", "x2jw.DocToJsonIndent", "x2jw.ToJson", "x2jw.ToJsonIndent", "x2jw.ToMap"} {
+			for _, fn := range []string{"x2j.XmlToJson", "x2j.XmlToJsonWriter", "x2j.XmlReaderToJson", "x2j.XmlReaderToJsonWriter", "x2jw.DocToMap", "x2jw.ByteDocToMap", "x2jw.DocToJson", "x2jw.ByteDocToJson", "x2jw.DocToJsonIndent", "x2jw.ToJson", "x2jw.ToJsonIndent", "x2jw.ToMap", "x2jw.XmlBufferToMap", "x2jw.XmlBufferToJson"} {
 				run(c20Case{Fn: fn, Xml: x, Flag: flag})
 			}
 		}
 		for _, key := range keys {
-			for _, fn := range []string{"x2j.XmlPathsForTag", "x2j.XmlPathForTagShortest", "x2jw.PathsForTag", "x2jw.BytePathsForTag", "x2jw.PathForTagShortest"} {
+			for _, fn := range []string{"x2j.XmlPathsForTag", "x2j.XmlPathForTagShortest", "x2jw.PathsForTag", "x2jw.BytePathsForTag", "x2jw.PathForTagShortest", "x2jw.BytePathForTagShortest"} {
 				run(c20Case{Fn: fn, Xml: x, Key: key})
 			}
 			for _, s := range subs {
@@ -713,6 +797,7 @@ func c20Run(c *Ctx) {
 			for _, flag := range []bool{false, true} {
 				run(c20Case{Fn: "x2jw.ValuesFromTagPath", Xml: x, Path: p, Flag: flag})
 				run(c20Case{Fn: "x2jw.ReaderValuesFromTagPath", Xml: x, Path: p, Flag: flag})
+				run(c20Case{Fn: "x2jw.ValuesAtTagPath", Xml: x, Path: p, Flag: flag})
 			}
 		}
 		for _, pr := range pairs {
@@ -728,8 +813,17 @@ func c20Run(c *Ctx) {
 				for _, flag := range []bool{false, true} {
 					run(c20Case{Fn: "x2jw.XmlMsgsFromReader", Xml: d1 + sep + d2, Pairs: []string{d1, d2}, Flag: flag})
 					run(c20Case{Fn: "x2jw.XmlMsgsFromReaderAsJson", Xml: d1 + sep + d2 + sep + d1, Pairs: []string{d1, d2, d1}, Flag: flag})
+					run(c20Case{Fn: "x2jw.XmlMsgsFromFile", Xml: d1 + sep + d2, Pairs: []string{d1, d2}, Flag: flag})
+					run(c20Case{Fn: "x2jw.XmlMsgsFromFileAsJson", Xml: d1 + sep + d2 + sep + d1, Pairs: []string{d1, d2, d1}, Flag: flag})
 				}
 			}
+		}
+	}
+	jd := []string{`{"a":1}`, `{"k":{"a":"<&>"}}`, `{"a":[1,{"k":"}"}]}`}
+	for _, d1 := range jd {
+		for _, d2 := range jd {
+			run(c20Case{Fn: "j2x.JsonReaderToXml(stream)", Pairs: []string{d1, d2}})
+			run(c20Case{Fn: "j2x.JsonReaderToXmlWriter(stream)", Pairs: []string{d1, d2}})
 		}
 	}
 	for _, j := range jsons {
